@@ -13,9 +13,13 @@ CONSTANTS
  MaxAdmin = 0
  MaxClose = 0
  MaxInval = 0
+ MaxCompact = 0
  FixRelease = FALSE
  DevReleaseRace = FALSE
  DevPutIfOwnerOther = FALSE
+ DevReacqBlind = FALSE
+ DevDropSameRev = FALSE
+ DevNoReload = FALSE
  FixRev = TRUE
  KeepHist = TRUE
 INIT Init
